@@ -21,8 +21,8 @@ LEVEL_TEXT = ('Kernel-checked theorems (Props/C17.v) about CHECKED twins of the 
               'structurally valid CSR matrix (any size; empty rows, missing or zero diagonals, unsorted / repeated columns) '
               'and every list of rows inside [0,n) -- in particular the forward and backward sweep ranges the callers pass -- '
               'the checked gauss_seidel, sor_gauss_seidel and jacobi never leave their arrays and return exactly what the '
-              'bit-exact kernel models of C09 return; naive aggregation likewise for every structurally valid CSR graph of any size; standard aggregation (the -n '
-              'sentinel arithmetic) on all symmetric graphs on <= 4 vertices with and without stored diagonal; for the Ruge-Stuben first pass (lambda buckets sized '
+              'bit-exact kernel models of C09 return; naive and standard aggregation (the -n sentinel arithmetic, ids shifted in place, y written at next-1 / next) '
+              'likewise for every structurally valid CSR graph of any size, symmetric or not; for the Ruge-Stuben first pass (lambda buckets sized '
               'max(2*lambda_max, n+1), the "//invalid write!" site) the same holds on all 133 strength patterns (directed on '
               '<= 3 vertices, symmetric on 4) and all influence vectors in {0,1,3}^n (bound stated in the theorem, decided by '
               'vm_compute over the complete enumeration).  The twins are tied to the working-tree kernels on both sides: on '
@@ -32,7 +32,7 @@ LEVEL_TEXT = ('Kernel-checked theorems (Props/C17.v) about CHECKED twins of the 
               'headers under AddressSanitizer + UndefinedBehaviorSanitizer + LeakSanitizer, through the Python callers (so '
               'every buffer is sized as they size it), over the complete enumeration of small graphs and structured random '
               'CSR/BSR inputs, each run under a time limit.')
-LEVEL_NOTE = ('Proof covers 6 of 66 kernels (4 unbounded, 2 bounded).  For the other 60 the sanitizer run is an oracle, not a '
+LEVEL_NOTE = ('Proof covers 6 of 66 kernels (5 unbounded, 1 bounded).  For the other 60 the sanitizer run is an oracle, not a '
               'proof; it is the search that produces failing inputs.  Memory safety of the C++ text itself is never proved: '
               'the theorems are about Gallina twins tied to the code by correspondence.  Lloyd clustering is exercised with '
               'positive weights only (its documented domain): zero-weight edges lead to duplicate centres and a heap '
@@ -46,7 +46,6 @@ RULE = ('sanitizer run: complete enumeration of symmetric graphs on 1..4 (5 thor
 TRUSTED = ['GCC 12 AddressSanitizer / UndefinedBehaviorSanitizer / LeakSanitizer runtimes (oracle side)',
            'NumPy allocates each array with malloc of its exact byte size (so the red zones start at the array ends)']
 PARTIAL = ['60 of 66 kernels: sanitizer oracle only, no theorem',
-           'standard_aggregation: bounded theorem (all symmetric graphs <= 4 vertices)',
            'rs_cf_splitting: bounded theorem (133 patterns x 3^n influence vectors)',
            'termination: time limit per run, plus structural recursion of the models; no termination theorem for the C++ loops']
 REFUTED = []
